@@ -1633,6 +1633,39 @@ func (x *Exec) checkCallsites(fr *frame, cc *ssa.CallCommon, args []sval, st *St
 				}
 			}
 		}
+		// address-taken locals declared before the call: their current contents
+		if blk != nil {
+			for _, b := range fr.fn.Blocks {
+				if !b.Dominates(blk) {
+					continue
+				}
+				for _, ins := range b.Instrs {
+					if b == blk && ins == at.(ssa.Instruction) {
+						break
+					}
+					al, ok := ins.(*ssa.Alloc)
+					if !ok || al.Comment == "" {
+						continue
+					}
+					sv, ok := fr.vals[al]
+					if !ok {
+						continue
+					}
+					et := al.Type().(*types.Pointer).Elem()
+					if !isScalarCell(et) {
+						continue
+					}
+					if _, exists := env.vars[al.Comment]; exists {
+						continue
+					}
+					if sv.loc != nil && sv.loc.Kind == "global" {
+						env.vars[al.Comment] = TVal{T: st.get(sv.loc.Comp), Sort: x.so.sortOf(et), Ty: et}
+					} else {
+						env.vars[al.Comment] = TVal{T: "(select " + st.get(x.so.cellComp(et)) + " " + sv.t + ")", Sort: x.so.sortOf(et), Ty: et}
+					}
+				}
+			}
+		}
 		for i, a := range args {
 			if i < len(cc.Args) {
 				env.vars[fmt.Sprintf("arg%d", i)] = TVal{T: a.t, Sort: x.so.sortOf(cc.Args[i].Type()), Ty: cc.Args[i].Type()}
@@ -1647,7 +1680,14 @@ func (x *Exec) checkCallsites(fr *frame, cc *ssa.CallCommon, args []sval, st *St
 		if lbl == "" {
 			lbl = fmt.Sprintf("L%d", c.Line)
 		}
-		x.oblige("callsite", lbl, reach, tv.T, "call-site condition of "+c.Target+": "+c.Text, pos)
+		// all call sites of one clause form ONE obligation (a new call site that breaks the
+		// clause fails the clause's obligation, it does not create a differently named one)
+		_ = lbl
+		if x.csCases == nil {
+			x.csCases = map[int][]oblCase{}
+		}
+		x.csCases[c.Line] = append(x.csCases[c.Line], oblCase{Guard: reach, Goal: tv.T, Block: x.curBlock, Idx: len(x.cmds)})
+		x.assume(reach, tv.T)
 	}
 }
 
@@ -1660,9 +1700,32 @@ func callsiteName(cc *ssa.CallCommon) string {
 	} else if f := cc.StaticCallee(); f != nil {
 		return f.String()
 	}
+	if u, ok := cc.Value.(*ssa.UnOp); ok && u.Op == token.MUL {
+		if fv, ok := u.X.(*ssa.FreeVar); ok {
+			return "freevar:" + fv.Name()
+		}
+	}
+	// a closure kept in a local that other closures capture: load of a cell stored once
+	if u, ok := cc.Value.(*ssa.UnOp); ok && u.Op == token.MUL {
+		if al, ok := u.X.(*ssa.Alloc); ok && al.Referrers() != nil {
+			var fn *ssa.Function
+			n := 0
+			for _, r := range *al.Referrers() {
+				if st, ok := r.(*ssa.Store); ok && st.Addr == al {
+					n++
+					if mc, ok := st.Val.(*ssa.MakeClosure); ok {
+						fn, _ = mc.Fn.(*ssa.Function)
+					}
+				}
+			}
+			if n == 1 && fn != nil {
+				return fn.String()
+			}
+		}
+	}
 	return ""
 }
 
 func callsiteMatch(target, name string) bool {
-	return name != "" && (target == name || (!strings.HasPrefix(target, "param:") && strings.Contains(name, target)))
+	return name != "" && (target == name || (!strings.HasPrefix(target, "param:") && !strings.HasPrefix(target, "freevar:") && strings.Contains(name, target)))
 }
